@@ -432,6 +432,7 @@ type Specs struct {
 	Locks     map[string]*LockSpec
 	Fields    map[string]*FieldSpec
 	Chans     map[string]*ChanSpec
+	FnFields    map[string]string // heap origin of a function-typed field -> the only function ever stored there
 	ChanClassOf map[string]string // heap origin -> channel class of every non-nil channel stored there
 	ObjInvs   map[string][]*Clause
 	FieldDefaults map[string]*FieldSpec
@@ -645,6 +646,15 @@ func (sp *Specs) readFile(path string) error {
 				return fail("ctxaware outside func")
 			}
 			cur.CtxAware = &Clause{Kind: "ctxaware", Labels: labels, File: path, Line: l.n, Func: cur.Key}
+			if strings.TrimSpace(rest) != "" {
+				// ctxaware <expr>: the escape of every blocking operation is the Done channel of that context
+				e, err := parseSpecExpr(rest)
+				if err != nil {
+					return fail("%v", err)
+				}
+				cur.CtxAware.Expr = e
+				cur.CtxAware.Text = rest
+			}
 		case "modifies":
 			if cur == nil {
 				return fail("modifies outside func")
@@ -795,6 +805,16 @@ func (sp *Specs) readFile(path string) error {
 			}
 			c.Func = "objinv " + tn
 			sp.ObjInvs[tn] = append(sp.ObjInvs[tn], c)
+		case "fnfield":
+			// fnfield <origin> is <funcKey>
+			f := strings.Fields(rest)
+			if len(f) != 3 || f[1] != "is" {
+				return fail("fnfield <origin> is <function>")
+			}
+			if sp.FnFields == nil {
+				sp.FnFields = map[string]string{}
+			}
+			sp.FnFields[f[0]] = f[2]
 		case "chanclass":
 			// chanclass <name> msg: expr
 			i := strings.Index(rest, " msg:")
